@@ -1514,3 +1514,231 @@ Theorem ostart_micros : forall cfg sel op iin a s' o,
   ostart cfg sel op iin a = (s', o) ->
   micros cfg None (upd_answers (ostate_init cfg sel op iin) a) o s'.
 Proof. intros. eapply idle_loop_micros; [|exact H]. reflexivity. Qed.
+
+(* ---------- micro-steps as seen by the unsolicited rules ---------------------------------------- *)
+
+Definition qob (o : oobs) : Prop := solob o \/ o = ODb DbDeferredSelect.
+
+Definition qv (s : ostate) := (s_unsol s, s_unsol_seq s, s_unsol_buf s, s_now s).
+
+(* a fragment held by the reader is the one of the current event *)
+Definition pend_ok (e : option oevent) (s : ostate) : Prop :=
+  forall from bc bytes d fid, s_pending s = Some (from, bc, bytes, d, fid) -> e = Some (ERx from bc bytes d).
+
+Definition frag_src (e : option oevent) (s : ostate) (from : N) (bc : option bcast_mode) (bytes : list N)
+           (d : digest) : Prop :=
+  e = Some (ERx from bc bytes d) \/ exists fid, s_pending s = Some (from, bc, bytes, d, fid).
+
+Definition en_step (cfg : ocfg) (e : option oevent) (s s' : ostate) : Prop :=
+  s_enabled s' = s_enabled s \/
+  exists from bc bytes d, frag_src e s from bc bytes d /\ enable_req cfg d s s'.
+
+Record base (cfg : ocfg) (e : option oevent) (s s' : ostate) : Prop := {
+  b_last : last_ok s -> last_ok s';
+  b_pend : pend_ok e s -> pend_ok e s';
+  b_en : en_step cfg e s s'
+}.
+
+Definition ctl_quiet (s s' : ostate) : Prop :=
+  s_control s' = s_control s \/ (is_uw (s_control s) = false /\ is_uw (s_control s') = false).
+
+Inductive ustep (cfg : ocfg) (e : option oevent) (s : ostate) (o : list oobs) (s' : ostate) : Prop :=
+| us_quiet :
+    base cfg e s s' -> (last_ok s -> Forall qob o) -> qv s' = qv s -> ctl_quiet s s' -> ustep cfg e s o s'
+| us_null :
+    s_control s = CIdle -> o_unsol cfg = true -> s_unsol s = UNullRequired ->
+    started cfg s s' true 0 (s_unsol_buf s) o -> ustep cfg e s o s'
+| us_data : forall dl c1 c2 c3 body o',
+    s_control s = CIdle -> o_unsol cfg = true -> s_unsol s = UReady dl -> unsol_ready s dl = true ->
+    any_enabled s = true -> s_enabled s = (c1, c2, c3) -> o = ODb (DbWriteUnsol c1 c2 c3) :: o' ->
+    started cfg s s' false (4 + length body) (buf_set (s_unsol_buf s) body) o' -> ustep cfg e s o s'
+| us_confirm : forall resp n ret dl,
+    s_control s = CUnsolWait resp n ret dl ->
+    o = OInfo (IUnsolConfirmed (ctl_seq (r_ctl resp))) :: (if n then [] else [ODb DbClearWritten]) ->
+    s_control s' = CIdle -> s_unsol s' = UReady None ->
+    (s_unsol_seq s', s_unsol_buf s', s_now s', s_deferred s', s_enabled s')
+    = (s_unsol_seq s, s_unsol_buf s, s_now s, s_deferred s, s_enabled s) ->
+    (last_ok s -> last_ok s') -> (pend_ok e s -> pend_ok e s') -> ustep cfg e s o s'
+| us_disable : forall resp n ret dl from bytes ctl obj o1,
+    s_control s = CUnsolWait resp n ret dl ->
+    frag_src e s from None bytes (DOk ctl 21 RvOk obj) ->
+    o = o1 ++ (if n then [] else [ODb DbReset]) -> (last_ok s -> Forall solob o1) ->
+    (exists oa b, o1 = oa ++ [OTx from b]) ->
+    s_control s' = CIdle ->
+    s_unsol s' = (if n then UNullRequired else UReady (Some (s_now s + o_retry_delay_ms cfg)%Z)) ->
+    (s_unsol_seq s', s_unsol_buf s', s_now s') = (s_unsol_seq s, s_unsol_buf s, s_now s) ->
+    s_deferred s' = None -> base cfg e s s' -> ustep cfg e s o s'
+| us_retry : forall resp n ret dl t,
+    s_control s = CUnsolWait resp n ret dl -> s_deferred s = None -> can_retry ret = true ->
+    t = Z.max dl (s_now s) ->
+    o = OAt t :: OInfo (IUnsolTimeout (ctl_seq (r_ctl resp)) true) :: repeat_unsolicited cfg s resp ->
+    s' = upd_control (upd_now s t) (CUnsolWait resp n (dec_retries ret) (t + o_confirm_ms cfg)%Z) ->
+    ustep cfg e s o s'
+| us_timeout : forall resp n ret dl t,
+    s_control s = CUnsolWait resp n ret dl -> (can_retry ret = false \/ s_deferred s <> None) ->
+    t = Z.max dl (s_now s) ->
+    o = OAt t :: OInfo (IUnsolTimeout (ctl_seq (r_ctl resp)) false) :: (if n then [] else [ODb DbReset]) ->
+    s_control s' = CIdle ->
+    s_unsol s' = (if n then UNullRequired else UReady (Some (t + o_retry_delay_ms cfg)%Z)) ->
+    s_now s' = t ->
+    (s_unsol_seq s', s_unsol_buf s', s_pending s', s_deferred s', s_enabled s', s_last s')
+    = (s_unsol_seq s, s_unsol_buf s, s_pending s, s_deferred s, s_enabled s, s_last s) ->
+    ustep cfg e s o s'
+| us_sol_timeout : forall se dl r t,
+    s_control s = CSolWait se dl r -> t = Z.max dl (s_now s) ->
+    o = [OAt t; OInfo (ISolTimeout (se_ecsn se)); ODb DbReset] -> s' = upd_control (upd_now s t) CIdle ->
+    ustep cfg e s o s'
+| us_tick : forall t,
+    s_control s = CIdle -> o_unsol cfg = true -> s_unsol s = UReady (Some t) -> (s_now s < t)%Z ->
+    o = [OAt t] -> s' = upd_now s t -> ustep cfg e s o s'
+| us_disconnect :
+    e = Some EDisconnect -> o = [ODb DbReset; OSessionEnd] ->
+    s' = upd_pending (upd_control (session_reset s) CIdle) None -> ustep cfg e s o s'
+| us_fuel : o = [OOutOfFuel] -> s' = s -> ustep cfg e s o s'.
+
+Lemma solob_qob : forall l, Forall solob l -> Forall qob l.
+Proof. intros l H. eapply Forall_imp; [|exact H]. intros o Ho. left. exact Ho. Qed.
+
+Lemma ctl_step_sol_idle : forall s s', ctl_step_sol s s' -> s_control s = CIdle ->
+  is_uw (s_control s) = false /\ is_uw (s_control s') = false.
+Proof.
+  intros s s' [H|(x & dl & r & H)] Hc; rewrite H; [rewrite Hc|rewrite Hc]; split; reflexivity.
+Qed.
+
+Lemma base_same : forall cfg e s s',
+  s_last s' = s_last s -> s_pending s' = s_pending s -> s_enabled s' = s_enabled s -> base cfg e s s'.
+Proof.
+  intros cfg e s s' Hl Hp He. split.
+  - apply last_ok_same. exact Hl.
+  - intros H from bc bytes d fid Hs. eapply H. rewrite <- Hp. exact Hs.
+  - left. exact He.
+Qed.
+
+Lemma pend_ok_none : forall e s, s_pending s = None -> pend_ok e s.
+Proof. intros e s H from bc bytes d fid Hs. congruence. Qed.
+
+(* a fragment in the wait *)
+Lemma wait_rx_ustep : forall cfg e s0 s resp n ret dl from bc bytes d fid o s',
+  s_control s0 = CUnsolWait resp n ret dl ->
+  frag_src e s0 from bc bytes d ->
+  (s = s0 \/ s = upd_pending s0 None) ->
+  wait_rx cfg s resp n from bc bytes d fid o s' -> ustep cfg e s0 o s'.
+Proof.
+  intros cfg e s0 s resp n ret dl from bc bytes d fid o s' Hc Hsrc Hs (s1 & res & o1 & E & Hres).
+  apply unsol_wait_fragment_spec in E. destruct E as (Hw & Hen & Hl & Hr).
+  assert (Hs0 : (s_unsol s, s_unsol_seq s, s_unsol_buf s, s_now s, s_control s, s_deferred s, s_enabled s, s_last s)
+                = (s_unsol s0, s_unsol_seq s0, s_unsol_buf s0, s_now s0, s_control s0, s_deferred s0, s_enabled s0, s_last s0)
+                /\ (pend_ok e s0 -> pend_ok e s)).
+  { destruct Hs as [-> | ->]; split; try reflexivity; auto. intros _. apply pend_ok_none. reflexivity. }
+  destruct Hs0 as [Hs0 Hp0].
+  assert (Hl0 : last_ok s0 -> last_ok s) by (apply last_ok_same; congruence).
+  assert (Hen0 : en_step cfg e s0 s1).
+  { right. exists from, bc, bytes, d. split; [exact Hsrc|].
+    destruct Hen as [Hen|(c & fn & hdrs & rh & Hd & Hu & Hf & He)]; [left; congruence|].
+    right. exists c, fn, hdrs, rh. repeat split; auto. congruence. }
+  assert (Hp1 : pend_ok e s0 -> pend_ok e s1).
+  { intros Hp from' bc' bytes' d' fid' Hx. apply Hp0 in Hp. eapply Hp.
+    unfold wview in Hw. replace (s_pending s) with (s_pending s1) by congruence. exact Hx. }
+  unfold wview in Hw.
+  destruct res as [[| |]|].
+  - (* confirmed *)
+    destruct Hres as (ns & o2 & E2 & ->). destruct Hr as (-> & Hd & He).
+    apply end_unsol_spec in E2. destruct E2 as (Hc2 & Hv2 & Hu2 & -> & _).
+    eapply (us_confirm cfg e s0 _ s' resp n ret dl); [exact Hc|destruct n; reflexivity|exact Hc2|exact Hu2|congruence| |].
+    + intros Hk. apply Hl0 in Hk. apply Hl in Hk. eapply last_ok_same; [|exact Hk]. congruence.
+    + intros Hp. apply Hp1 in Hp. intros from' bc' bytes' d' fid' Hx. eapply Hp.
+      replace (s_pending s1) with (s_pending s') by congruence. exact Hx.
+  - destruct Hr.
+  - (* DISABLE_UNSOLICITED *)
+    destruct Hres as (ns & o2 & E2 & ->). destruct Hr as (Ho1 & Hd & -> & (ctl & obj & ->) & Hex).
+    apply end_unsol_spec in E2. destruct E2 as (Hc2 & Hv2 & Hu2 & -> & _).
+    assert (Hn1 : s_now s1 = s_now s0) by congruence.
+    eapply (us_disable cfg e s0 _ s' resp n ret dl from bytes ctl obj o1);
+      [exact Hc|exact Hsrc|destruct n; reflexivity|auto|exact Hex|exact Hc2|
+       destruct n; rewrite Hu2; [reflexivity|rewrite Hn1; reflexivity]|congruence|congruence|].
+    split.
+      * intros Hk. apply Hl0 in Hk. apply Hl in Hk. eapply last_ok_same; [|exact Hk]. congruence.
+      * intros Hp. apply Hp1 in Hp. intros from' bc' bytes' d' fid' Hx. eapply Hp.
+        replace (s_pending s1) with (s_pending s') by congruence. exact Hx.
+      * destruct Hen0 as [He|(f' & b' & y' & d' & Hsrc' & He)].
+        -- left. congruence.
+        -- right. exists f', b', y', d'. split; [exact Hsrc'|].
+           destruct He as [He|(c & fn & hdrs & rh & Hd' & Hu & Hf & He)]; [left; congruence|].
+           right. exists c, fn, hdrs, rh. repeat split; auto. congruence.
+  - destruct Hres as [-> ->]. apply us_quiet.
+    + split; [auto|exact Hp1|exact Hen0].
+    + intros Hk. apply solob_qob. auto.
+    + unfold qv. congruence.
+    + left. congruence.
+Qed.
+
+Lemma micro_ustep : forall cfg e s o s', micro cfg e s o s' -> ustep cfg e s o s'.
+Proof.
+  intros cfg e s o s' H. destruct H.
+  - (* skip *)
+    unfold kview, wview in H. apply us_quiet.
+    + apply base_same; congruence.
+    + intros _. constructor.
+    + unfold qv. congruence.
+    + left. congruence.
+  - (* pending set *)
+    apply us_quiet.
+    + split; [auto| |left; reflexivity].
+      intros _ from' bc' bytes' d' fid' Hx. cbn in Hx. inversion Hx; subst. reflexivity.
+    + intros _. constructor.
+    + reflexivity.
+    + left. reflexivity.
+  - (* request from idle *)
+    apply handle_from_idle_spec in H1. destruct H1 as (Hu & Hc & Hen & Ho).
+    unfold uview in Hu. psimpl_in Hu.
+    apply us_quiet.
+    + split.
+      * intros Hk. apply Ho. exact Hk.
+      * intros _. apply pend_ok_none. congruence.
+      * right. exists from, bc, bytes, d. split; [right; eauto|exact Hen].
+    + intros Hk. apply solob_qob. apply Ho. exact Hk.
+    + unfold qv. congruence.
+    + right. apply (ctl_step_sol_idle (upd_pending s None)); [exact Hc|exact H].
+  - (* solicited wait *)
+    destruct H as [Hv Hu Ho]. apply us_quiet.
+    + split; [apply Ho| |left; congruence].
+      intros Hp from' bc' bytes' d' fid' Hx. eapply Hp. replace (s_pending s) with (s_pending s') by congruence. exact Hx.
+    + intros Hk. apply solob_qob. apply Ho. exact Hk.
+    + unfold qv. congruence.
+    + right. exact Hu.
+  - (* check_unsolicited *)
+    apply check_unsolicited_spec in H0. destruct H0 as [[-> Hk]|[(Hu & Hs & Hst)|(Hu & dl & c1 & c2 & c3 & body & o' & Hs & Hr & Ha & He & -> & Hst)]].
+    + unfold kview, wview in Hk. apply us_quiet.
+      * apply base_same; congruence.
+      * intros _. constructor.
+      * unfold qv. congruence.
+      * left. congruence.
+    + apply us_null; assumption.
+    + eapply us_data; eauto.
+  - eapply wait_rx_ustep; [exact H|left; exact H0|left; reflexivity|exact H1].
+  - eapply wait_rx_ustep; [exact H|right; eauto|right; reflexivity|exact H1].
+  - (* deferred read *)
+    apply handle_deferred_spec in H0. destruct (s_deferred s) as [d|] eqn:Ed.
+    + destruct H0 as (Hd & Hv & Hc & Hl & o1 & b & o2 & -> & Ho1 & Hb1 & _ & Ho2).
+      unfold dview in Hv. apply us_quiet.
+      * split; [intros _; exact Hl| |left; congruence].
+        intros Hp from' bc' bytes' d' fid' Hx. eapply Hp. replace (s_pending s) with (s_pending s') by congruence. exact Hx.
+      * intros _. constructor; [right; reflexivity|]. apply Forall_app; split.
+        -- apply solob_qob. eapply Forall_imp; [apply dbq_solob|exact Ho1].
+        -- constructor; [left; exact Hb1|]. destruct Ho2 as [-> |[q ->]]; [constructor|].
+           constructor; [left; exact I|constructor].
+      * unfold qv. congruence.
+      * right. apply ctl_step_sol_idle; assumption.
+    + destruct H0 as [-> ->]. apply us_quiet.
+      * apply base_same; reflexivity.
+      * intros _. constructor.
+      * reflexivity.
+      * left. reflexivity.
+  - eapply us_retry; eauto.
+  - apply end_unsol_spec in H2. destruct H2 as (Hc2 & Hv2 & Hu2 & -> & _). psimpl_in Hv2. psimpl_in Hu2.
+    eapply (us_timeout cfg e s _ s' resp n ret dl t); [exact H|exact H0|exact H1|destruct n; reflexivity|exact Hc2|exact Hu2|congruence|congruence].
+  - eapply us_sol_timeout; eauto.
+  - eapply us_tick; eauto.
+  - apply us_disconnect; auto.
+  - apply us_fuel; reflexivity.
+Qed.
